@@ -23,6 +23,7 @@ import os
 import time
 import warnings
 
+import gmpy2
 import mpmath as mp
 
 import framework as fw
@@ -112,7 +113,9 @@ class Recorder:
     self.bm_oracle = bm_oracle
     # float-decided exceptions (Model/NistFloat.lean): flags of every ChiSquare call, zero entry in
     # any RandomExcursionsDistribution result
-    self.flo = dict(chi=[], exc0=False, chi_zero_idx=[])
+    # chi_prob: the float `prob` list of every ChiSquare call; exc_calls: (x, max_cnt, indices of 0.0 entries) of
+    # every RandomExcursionsDistribution call — the material of Case.float_oracle_failure (review-2 M6)
+    self.flo = dict(chi=[], exc0=False, chi_zero_idx=[], chi_prob=[], exc_calls=[])
 
   def __enter__(self):
     ns, ens, util = mods()
@@ -141,12 +144,14 @@ class Recorder:
       pr = list(prob)
       flo['chi'].append((any(not 0.0 < p <= 1.0 for p in pr), bool(abs(sum(pr) - 1.0) > 1e-04)))
       flo['chi_zero_idx'].append([i for i, p in enumerate(pr) if p == 0.0])
+      flo['chi_prob'].append(pr)
       return self.saved['chi'](count, prob, k)
 
     def red(x, max_cnt=5):
       pi = self.saved['red'](x, max_cnt)
       if any(p == 0.0 for p in pi):
         flo['exc0'] = True
+      flo['exc_calls'].append((int(x), int(max_cnt), [i for i, p in enumerate(pi) if p == 0.0], len(pi)))
       return pi
 
     def cusum(n, z):
@@ -199,6 +204,98 @@ def popt(s):
 
 def poptl(s):
   return None if s == '-' else nt.pl(s)
+
+
+# ----------------------------------------------------------------------------
+# exact distributions for the underflow verification of the float oracles (Case.float_oracle_failure)
+
+from fractions import Fraction as _Fr
+
+UNDERFLOW_BOUND = _Fr(1, 2 ** 1000)
+_EXACT = {}
+
+
+class Dyadic:
+  """num / 2^e without normalisation (a gcd of million-bit integers costs seconds); just enough of the
+  Fraction interface for Case.float_oracle_failure."""
+
+  def __init__(self, num, e):
+    self.numerator, self.e = int(num), e
+
+  @property
+  def denominator(self):
+    return 1 << self.e
+
+  def __ge__(self, q):
+    return self.numerator * q.denominator >= q.numerator << self.e
+
+  def fraction(self):
+    return _Fr(self.numerator, 1 << self.e)
+
+
+def rank_distribution_closed(r, c, k):
+  """RankDistribution(r, c, k, allow_approximation=False) exactly, from the number of r x c matrices over GF(2)
+  of rank rho, N(rho) = [r choose rho]_2 * prod_{i<rho} (2^c - 2^i), walked downwards from rho = min(r, c) by
+  N(rho-1) = N(rho) (2^rho - 1) / ((2^(r-rho+1) - 1)(2^c - 2^(rho-1))):
+  [P(rank = r), ..., P(rank = r-k+1), P(rank <= r-k)] as Dyadic values over 2^(r c).  Linear in r big-integer
+  products where the column recurrence of nist_tail.rank_distribution (= the Lean model's `rankDistribution`)
+  needs r*c Fraction operations on r*c-bit numbers; used for shapes with r*c*r > 4e6 only, and compared with the
+  recurrence on every run (distributions check of helpers_batch)."""
+  mpz = gmpy2.mpz
+  one = mpz(1)
+  top_rho = min(r, c)
+  # N(top_rho): Gaussian binomial [r choose top_rho]_2 times the number of surjections
+  num = den = mpz(1)
+  for i in range(top_rho):
+    num *= (one << (r - i)) - 1
+    den *= (one << (top_rho - i)) - 1
+  n_rho = num // den
+  assert n_rho * den == num
+  for i in range(top_rho):
+    n_rho *= (one << c) - (one << i)
+  counts = {}
+  rho = top_rho
+  while rho >= 0 and rho > r - k:
+    counts[rho] = n_rho
+    if rho >= 1:
+      num = n_rho * ((one << rho) - 1)
+      den = ((one << (r - rho + 1)) - 1) * ((one << c) - (one << (rho - 1)))
+      n_rho, rem = divmod(num, den)
+      assert rem == 0
+    rho -= 1
+  top = [counts.get(r - i, 0) for i in range(k)]
+  e = r * c
+  return tuple(Dyadic(t, e) for t in top) + (Dyadic((one << e) - sum(top), e),)
+
+
+def exact_rank(r, c, k):
+  key = ('rank', r, c, k)
+  if key not in _EXACT:
+    if r == c and r >= 31 and k <= 5:
+      _EXACT[key] = tuple(nt.rank_distribution(r, c, k, True))        # the table branch of RankDistribution
+    elif r * c * r <= 4 * 10 ** 6:
+      _EXACT[key] = tuple(nt.rank_distribution(r, c, k, False))
+    else:
+      _EXACT[key] = rank_distribution_closed(r, c, k)
+  return _EXACT[key]
+
+
+def otm_shape(args):
+  """(block_size, m) of OverlappingTemplateMatching(bits, n, m, block_size) with the documented defaults."""
+  m = 9 if args[0] is None else args[0]
+  bs = (2 ** (m + 1) + m - 1) if args[1] is None else args[1]
+  return bs, m
+
+
+def exact_otm(bs, m):
+  return tuple(nt.otm_distribution(bs, m, 5))
+
+
+def exact_excursion(x, mc):
+  key = ('exc', abs(x), mc)
+  if key not in _EXACT:
+    _EXACT[key] = tuple(nt.excursion_distribution(x, mc))
+  return _EXACT[key]
 
 
 class Case:
@@ -263,6 +360,63 @@ class Case:
 
   def exc_zero(self):
     return bool((self.flo or {}).get('exc0'))
+
+  def float_oracle_failure(self):
+    """review-2 M6.  The oracle flags are ChiSquare's own two tests re-evaluated on the float list, and
+    model line, reference and predicate all follow the flags: without this check ANY rejection, whatever
+    caused it (a wrong RankDistribution, a wrong normalisation), was reported `agree`.  Here the harness
+    verifies INDEPENDENTLY that a reported rejection is an underflow, against the exact rational
+    distribution (nist_tail.rank_distribution / otm_distribution / excursion_distribution — the Fraction
+    loops that are tied to the Lean model's `rankDistribution` / `excursionPi` on every run, ops
+    nist.rankdist / nist.excursionpi; big shapes: the closed form `rank_distribution_closed`, tied to the
+    loop on every run):
+      * badProb: every entry that fails `0.0 < p <= 1.0` must be exactly 0.0 (a negative, nan or > 1 entry is
+        never an underflow) and the exact probability of that class must be below UNDERFLOW_BOUND = 2^-1000
+        (the smallest positive double is 2^-1074; all entries are sums of products of non-negative numbers
+        <= 1, so a class of exact probability >= 2^-1000 cannot round to 0.0: 74 bits of slack for the
+        accumulated rounding; a class in [2^-1074, 2^-1000) may or may not underflow: accepted either way);
+      * badSum is never an underflow (the mass lost by underflows is < r*c*2^-1074, the exact distribution
+        sums to 1): any `abs(sum - 1) > 1e-4` is a failure;
+      * excZero: the same bound for every 0.0 entry of every RandomExcursionsDistribution(x, max_cnt) call.
+    Returns None or the description of the failing predicate."""
+    flo = self.flo
+    if not flo:
+      return None
+    if self.op in ('nist.rank', 'nist.otm') and flo.get('chi'):
+      (bp, bsum), pr = flo['chi'][-1], flo['chi_prob'][-1]
+      if bp or bsum:
+        a = self.args
+        what = ('RankDistribution(%d, %d, %d)' % (a[0], a[1], a[2]) if self.op == 'nist.rank' else
+                'OverlappingTemplateMatchingDistribution(%d, %d, 5)' % otm_shape(a)[::-1])
+        offending = [i for i, p in enumerate(pr) if not 0.0 < p <= 1.0]
+        nonzero = [(i, pr[i]) for i in offending if pr[i] != 0.0]
+        if nonzero:
+          return ('ChiSquare rejected %s because entry %d is %r: not an underflow (an underflowed probability is '
+                  'exactly 0.0)' % (what, nonzero[0][0], nonzero[0][1]))
+        ex = exact_rank(a[0], a[1], a[2]) if self.op == 'nist.rank' else exact_otm(*otm_shape(a))
+        if len(ex) != len(pr):
+          return '%s has %d entries, the exact distribution %d' % (what, len(pr), len(ex))
+        big = [(i, ex[i]) for i in offending if ex[i] >= UNDERFLOW_BOUND]
+        if big:
+          return ('ChiSquare rejected a distribution whose exact probabilities are all >= 2^-1000 at the rejected '
+                  'classes: %s entry %d is 0.0, exact probability %s (not an underflow)' % (
+                      what, big[0][0], mp.nstr(mp.mpf(big[0][1].numerator) / big[0][1].denominator, 8)))
+        if bsum:
+          return ('ChiSquare rejected %s because the float probabilities sum to %r (|sum - 1| > 1e-4): never an '
+                  'underflow — the exact distribution sums to 1 and underflows lose less than 2^-1000 in total' % (
+                      what, sum(pr)))
+    if self.op == 'nist.randomwalk':
+      for (x, mc, zeros, ln) in flo.get('exc_calls', []):
+        if not zeros:
+          continue
+        ex = exact_excursion(x, mc)
+        if ln != len(ex):
+          return 'RandomExcursionsDistribution(%d, %d) has %d entries, the exact distribution %d' % (x, mc, ln, len(ex))
+        for i in zeros:
+          if ex[i] >= UNDERFLOW_BOUND:
+            return ('RandomExcursionsDistribution(%d, %d)[%d] is 0.0 but the exact probability is %s >= 2^-1000 '
+                    '(not an underflow)' % (x, mc, i, mp.nstr(mp.mpf(ex[i].numerator) / ex[i].denominator, 8)))
+    return None
 
   def float_suffix(self):
     """oracle arguments on the request line; empty (= clean oracle) when the implementation was not run."""
@@ -428,6 +582,11 @@ def compare(case, model_answer, aux=None):
   op = case.op
   ans = model_answer
   pinned = None
+  ff = case.float_oracle_failure()
+  if ff:
+    # the recorded oracle flag is not an underflow: the model line was driven by a wrong flag (review-2 M6)
+    FLO['not_an_underflow'] += 1
+    return 'diverge', 'float oracle: ' + ff, set()
   if op == 'nist.randomwalk' and ' | pinned ' in ans:
     ans, pinned = ans.split(' | pinned ')
   try:
@@ -557,6 +716,11 @@ def make_pred(case):
     c = Case(case.op, case.bits, case.n, case.args)
     c.run_impl()
     kind, res = c.res
+    # the float oracle that the reference below follows must be an UNDERFLOW (review-2 M6): a rejection of a
+    # distribution whose exact probabilities are representable is a wrong answer of the implementation
+    ff = c.float_oracle_failure()
+    if ff:
+      return '%s n=%d: %s; implementation gives %s' % (c.op, c.n, ff, fmt_res(c.res))
     # clause: range
     if kind == 'ok':
       for nm, p in res:
@@ -672,7 +836,7 @@ class NBatch(Batch):
 
 
 FLO = {'chi_calls': 0, 'rank_rejected': 0, 'otm_rejected': 0, 'other_chi_rejected': 0,
-       'bad_sum': 0, 'excursion_zero': 0}
+       'bad_sum': 0, 'excursion_zero': 0, 'not_an_underflow': 0, 'underflow_verified': 0}
 
 
 def note_float(case):
@@ -689,6 +853,8 @@ def note_float(case):
       FLO['bad_sum'] += 1
   if flo.get('exc0'):
     FLO['excursion_zero'] += 1
+  if (flo.get('exc0') or any(bp or bsum for bp, bsum in flo.get('chi', []))) and case.float_oracle_failure() is None:
+    FLO['underflow_verified'] += 1      # rejection / 0.0 entry confirmed as an underflow against the exact distribution
   if case.tag.startswith('float:'):
     if case.op in ('nist.rank', 'nist.otm'):
       side = ('chi-rejected' if any(case.chi_flags()) else 'chi-accepted') if flo.get('chi') else 'chi-not-reached'
@@ -1301,6 +1467,14 @@ def helpers_batch(rep, rng):
     cnt += 1
     if len(ex) != len(py) or any(abs(float(a) - p) > 1e-12 * max(p, 1e-300) + 1e-300 for a, p in zip(ex, py)):
       bad.append('RankDistribution(%d,%d,%d): %s vs exact %s' % (r, c, k, list(py), [float(a) for a in ex]))
+  # the closed form used by the underflow verification for big shapes (rank_distribution_closed) against the
+  # column recurrence (= the Lean model's rankDistribution, op nist.rankdist above)
+  for (r, c, k) in ((1, 1, 1), (2, 2, 1), (3, 5, 3), (5, 3, 2), (5, 3, 5), (6, 8, 2), (4, 7, 3), (8, 8, 8), (8, 300, 5),
+                    (10, 12, 4), (16, 16, 3), (30, 30, 3), (31, 31, 6), (32, 32, 6), (33, 40, 3), (40, 40, 33), (2, 1100, 1), (300, 8, 5), (40, 39, 33),
+                    (7, 7, 7)):
+    cnt += 1
+    if tuple(d.fraction() for d in rank_distribution_closed(r, c, k)) != tuple(nt.rank_distribution(r, c, k, False)):
+      bad.append('rank_distribution_closed(%d,%d,%d) differs from the exact column recurrence' % (r, c, k))
   for (n, m) in ((1032, 9), (10, 3), (6, 2), (64, 5), (100, 9), (200, 2)):
     ex = nt.otm_distribution(n, m, 5)
     py = ns.OverlappingTemplateMatchingDistribution(n, m, 5)
@@ -1659,8 +1833,9 @@ def universal_expected(L):
 
 
 def table_clauses(include_big=False):
-  """Returns list of (table, description) for entries that are neither the rounded nor the
-  truncated value of the exactly derived distribution at the printed precision."""
+  """Returns list of (table, description, key) for entries that are neither the rounded nor the
+  truncated value of the exactly derived distribution at the printed precision; key = (M, index, printed
+  value) for a LongestRuns entry (what the D20 downgrade matches on), else None."""
   from fractions import Fraction as Fr
   t = nt.tables()
   bad = []
@@ -1671,7 +1846,7 @@ def table_clauses(include_big=False):
     for i, (p, e) in enumerate(zip(pi, ex)):
       if p * 10 ** 4 not in (math.floor(e * 10 ** 4), math.floor(e * 10 ** 4 + Fr(1, 2))):
         bad.append(('LongestRuns M=%d' % M, 'pi[%d] = %s is neither the rounded nor the truncated exact value %.6f' % (
-            i, float(p), float(e))))
+            i, float(p), float(e)), (M, i, Fr(p))))
   from nist_ref import neg_log_prob
   for name, m in (('lincomp_pi_even', 1000), ('lincomp_pi_odd', 1001)):
     med = (m + 1) // 2
@@ -1681,24 +1856,36 @@ def table_clauses(include_big=False):
       probs[cls] += Fr(1, 2 ** neg_log_prob(m, c))
     for i, (p, e) in enumerate(zip(t[name], probs)):
       if abs(p - e) > Fr(1, 2 ** 400):
-        bad.append((name, 'pi[%d] = %s, exact %s' % (i, p, float(e))))
+        bad.append((name, 'pi[%d] = %s, exact %s' % (i, p, float(e)), None))
   pre = t['rank_precomputed']
   ex = list(nt.rank_distribution(40, 40, 5, False))
   exact_inf = ex[:5] + [ex[5]]
   for i, p in enumerate(pre[:5]):
     if abs(p - ex[i]) >= Fr(1, 10 ** 7):
-      bad.append(('RankDistribution.precomputed', 'entry %d = %s, 40x40 exact %.10f' % (i, float(p), float(ex[i]))))
+      bad.append(('RankDistribution.precomputed', 'entry %d = %s, 40x40 exact %.10f' % (i, float(p), float(ex[i])), None))
   sf = t['asymptotic_rank_sf']
   full = list(nt.rank_distribution(64, 64, 33, False))
   for k in range(0, 12):
     e = 1 - sum(full[:k])
     if e > 0 and abs(sf[k] - e) / e > Fr(1, 10 ** 4):
-      bad.append(('ASYMPTOTIC_RANK_SF', 'entry %d = %s, 64x64 exact %.8g' % (k, float(sf[k]), float(e))))
+      bad.append(('ASYMPTOTIC_RANK_SF', 'entry %d = %s, 64x64 exact %.8g' % (k, float(sf[k]), float(e)), None))
   for L_, (mean, var) in sorted(t['universal_table'].items()):
     e = universal_expected(L_)
     if abs(float(mean) - e) > 1.5e-7 * (10 if L_ >= 11 else 1):
-      bad.append(('UniversalDistribution', 'expected value for L=%d is %s, series gives %.8f' % (L_, float(mean), e)))
+      bad.append(('UniversalDistribution', 'expected value for L=%d is %s, series gives %.8f' % (L_, float(mean), e), None))
   return bad
+
+
+# known finding D20: the M = 10000 row of LongestRuns.params as printed in NIST SP 800-22 (known_findings.json).
+# The downgrade matches the ENTRY (row, index, printed value), not the table name (review-2 L20): any other wrong
+# value in that row — or in another row — stays a violation.
+D20_ROW = ('0.0882', '0.2092', '0.2483', '0.1933', '0.1208', '0.0675', '0.0727')
+
+
+def is_d20(key):
+  from fractions import Fraction as Fr
+  M, i, p = key
+  return M == 10000 and 0 <= i < len(D20_ROW) and p == Fr(D20_ROW[i])
 
 
 def tables_batch(rep):
@@ -1707,8 +1894,8 @@ def tables_batch(rep):
   rep.evaluations += 1
   rep.ops['nist.tables'] = 1
   rep.tags['nist.tables:exact-derivation'] = 1
-  for table, what in bad:
-    if table == 'LongestRuns M=10000' and 'D20' in listed_findings():
+  for table, what, key in bad:
+    if key is not None and is_d20(key) and 'D20' in listed_findings():
       if not any(k.startswith('D20 ') for k in rep.known):
         rep.known.append('D20 %s (%s)' % (KNOWN_CLASSES['D20'], what))
       continue
@@ -1775,7 +1962,8 @@ def replay(obj):
     return 2
   if rp['op'] == 'nist.table':
     bad = [b for b in table_clauses(include_big=True) if b[0] == rp['table']]
-    for t, w in bad:
+    bad = [b for b in bad if not (b[2] is not None and is_d20(b[2]) and 'D20' in listed_findings())]
+    for t, w, _ in bad:
       print('VIOLATION property=C12 %s: %s' % (t, w))
     return 1 if bad else 0
   if rp['op'] == 'nist.spectral':
